@@ -22,6 +22,17 @@ import (
 )
 
 func Merge(lists ...[]types.Entry) []types.Entry {
+	return merge(false, lists...)
+}
+
+// MergeKeepTombstones merges like Merge but keeps tombstone entries.
+// A tombstone is a version of its key, it must keep shadowing the older versions
+// which are stored in the merged result or in other sstables.
+func MergeKeepTombstones(lists ...[]types.Entry) []types.Entry {
+	return merge(true, lists...)
+}
+
+func merge(keepTombstones bool, lists ...[]types.Entry) []types.Entry {
 	h := &Heap{}
 	heap.Init(h)
 
@@ -55,7 +66,7 @@ func Merge(lists ...[]types.Entry) []types.Entry {
 	var merged []types.Entry
 
 	for _, entry := range latest {
-		if entry.Tombstone {
+		if entry.Tombstone && !keepTombstones {
 			continue
 		}
 		merged = append(merged, entry)
